@@ -5,7 +5,7 @@ from core import World, Line
 from gen import Gen, mode_line
 from suites import gen_history, emit_exec, run_suite, mutate_call
 
-LEAN_MODULES = ['GoSnaps.Props.C20']
+LEAN_MODULES = ['GoSnaps.Props.C20', 'GoSnaps.Props.C20Summary']
 
 
 def make_spec(g, allow):
@@ -150,4 +150,20 @@ def run(ctx):
         w.add('events', ('io-error-one-outcome', exp))
         io.append(w)
     run_suite(ctx, 'match.io-errors', io, known=known, use_model=False)
+    # a very long line (> 1 MiB) in a snapshot file that Clean examines: the totals must still be shown
+    hw = World('c20huge')
+    hw.add(mode_line(False, ''))
+    hw.add('cfg 1 %s - - none none' % core.hx('snaps'))
+    hw.add('begin 1 %s' % core.hx(b'TestHuge'))
+    hw.add('snap 1 1 %s' % core.hx(b'H' * (1200000 if ctx.tier == 'quick' else 3300000)))
+    hw.add('snap 1 1 %s' % core.hx(b'small'))
+    hw.add('end 1')
+
+    def exph(line, raw, ww):
+        t = line.out.decode('utf-8', 'replace')
+        if '2 snapshots added' not in t:
+            return 'the summary does not show the two added snapshots: %r' % t[:200]
+        return None
+    hw.add('clean - - 1', ('summary-with-huge-line', exph))
+    run_suite(ctx, 'clean.huge-line', [hw], known=known, use_model=False)
     findings.report(ctx, 'C20')
